@@ -744,7 +744,7 @@ def quiet_stdout():
 # ---------------------------------------------------------------------------------------------
 # schedules
 
-SAMPLERS = ('step', 'line', 'write', 'branch', 'static', 'opcode')
+SAMPLERS = ('step', 'line', 'write', 'branch', 'static', 'opcode', 'sweep')
 SAMPLER_WEIGHTS = [('step', 25), ('line', 25), ('write', 25), ('branch', 15), ('static', 10)]
 
 
@@ -1020,9 +1020,46 @@ def scenario_job(athlib, scn, sched_seeds, opts):
             sched_seeds = list(sched_seeds)[:max(2, len(sched_seeds) // 2)]
     n_line = len(sched_seeds)
     sched_seeds = list(sched_seeds) + [common.run_seed(PROP, 'op', sched_seeds[0], j) for j in range(max(2, k_op))]
+    given = {}
+    sweep = opts.get('sweep')
+    if not sweep and focus and opts.get('sweep_every') and opts.get('idx') is not None:
+        # a scenario that executes lines near a difference from the baseline commit: four times as often
+        sw4 = max(1, opts['sweep_every'] // 4)
+        sweep = opts['idx'] % sw4 == (opts['idx'] // sw4 * 3 + 1) % sw4
+    if sweep:
+        # systematic part ("every interleaving ... up to a bound"): for this scenario EVERY single pre-emption
+        # is tried - each thread started first and pre-empted before the first and before the last execution
+        # of every distinct source line it runs on any of its sequential paths, in favour of every other
+        # thread.  Seeded search decides which scenarios; within them nothing at depth one is left to chance.
+        n = len(programs)
+        specs = []
+        for t in range(n):
+            seen_pos = set()
+            for tr in traces[t]:
+                last = {}
+                for key in tr:
+                    last[key] = last.get(key, 0) + 1
+                for key, cntk in last.items():
+                    for occ in sorted(set((1, cntk))):
+                        if (key, occ) in seen_pos:
+                            continue
+                        seen_pos.add((key, occ))
+                        for to in range(n):
+                            if to != t:
+                                specs.append({'first': t, 'pref': [t] + [x for x in range(n) if x != t],
+                                              'preemptions': [{'thread': t, 'file': os.path.relpath(key[0], common.ATHLIB_DIR),
+                                                               'line': key[1], 'occ': occ, 'to': to}], 'sampler': 'sweep'})
+        specs.sort(key=lambda sp: json.dumps(sp, sort_keys=True))
+        for j, sp in enumerate(specs[:opts.get('sweep_cap', 600)]):
+            ps = common.run_seed(PROP, 'sweep', sched_seeds[0], j)
+            given[ps] = sp
+        cnt.inc('scenarios_swept_at_depth_one')
+        cnt.inc('sweep_positions_beyond_cap', max(0, len(specs) - opts.get('sweep_cap', 600)))
+        sched_seeds = list(sched_seeds) + list(given)
     for k, sseed in enumerate(sched_seeds):
         rng = random.Random(sseed)
-        spec = draw_schedule(rng, len(programs), traces, wlines, used, focus) if k < n_line \
+        spec = given[sseed] if sseed in given else \
+            draw_schedule(rng, len(programs), traces, wlines, used, focus) if k < n_line \
             else draw_op_schedule(rng, len(programs), traces, wlines, focus)
         res = run_one(athlib, programs, spec, step_cap, epilogue=epilogue)
         rd = (rd + common.run_digest_term(sseed, [res['status'], common.canon_outcome(res['out']), res['switches'], res['digest'],
@@ -1169,8 +1206,8 @@ def minimise(athlib, programs, spec, accepted, vclass, step_cap, epilogue=None):
 
 TIERS = {
     # scenarios, schedules per scenario, wall cap for the pool
-    'quick': {'scenarios': 1800, 'k': 24, 'wall': 1200, 'det': 24},
-    'thorough': {'scenarios': 24000, 'k': 32, 'wall': 7200, 'det': 192},
+    'quick': {'scenarios': 1800, 'k': 24, 'wall': 1200, 'det': 24, 'sweep_every': 60, 'sweep_cap': 400},
+    'thorough': {'scenarios': 24000, 'k': 32, 'wall': 7200, 'det': 192, 'sweep_every': 24, 'sweep_cap': 1200},
 }
 
 
@@ -1224,8 +1261,12 @@ def worker(master, n_scn, k, opts):
                 continue
             scn = scenario_for(master, idx)
             seeds = sched_seeds_for(master, idx, k)
-            def job(scn=scn, seeds=seeds):
-                return scenario_job(athlib, scn, seeds, opts)
+            # every SWEEP_EVERY-th scenario is also swept systematically at depth one (residue rotated so that
+            # the swept scenarios are spread over all workers)
+            sw = opts.get('sweep_every')
+            o2 = dict(opts, idx=idx, sweep=bool(sw) and idx % sw == (idx // sw * 7 + 5) % sw)
+            def job(scn=scn, seeds=seeds, o2=o2):
+                return scenario_job(athlib, scn, seeds, o2)
             try:
                 try:
                     r = common.fork_call(job, wall_cap=600.0, what='scenario %d' % idx)
@@ -1329,7 +1370,7 @@ def main(tier_, replay=None):
     cfg = dict(TIERS[tier_])
     if os.environ.get('VERIF_SCENARIOS'):
         cfg['scenarios'] = int(os.environ['VERIF_SCENARIOS'])
-    opts = {'minimise': True}
+    opts = {'minimise': True, 'sweep_every': cfg.get('sweep_every'), 'sweep_cap': cfg.get('sweep_cap', 600)}
     if os.environ.get('VERIF_BUDGET_S'):
         opts['budget_s'] = float(os.environ['VERIF_BUDGET_S'])
     print('C16 thrsim tier=%s seed=%d scenarios=%d x %d schedules, repo=%s' %
@@ -1399,6 +1440,9 @@ def main(tier_, replay=None):
                          'preemptions_planned': cnt.get('preemptions_planned', 0),
                          'cooperative_lock_blocks': cnt.get('lock_blocks', 0)},
         'samplers': {s: cnt.get('sampler_' + s, 0) for s in SAMPLERS},
+        'systematic_depth_one_sweeps': {'scenarios_swept (every single pre-emption at the first and last execution of every distinct line, each thread first, to every other thread)': cnt.get('scenarios_swept_at_depth_one', 0),
+                                        'schedules': cnt.get('sampler_sweep', 0),
+                                        'positions_beyond_the_per_scenario_cap': cnt.get('sweep_positions_beyond_cap', 0)},
         'probes_switch_sites_top': dict(top),
         'probes': {'distinct_switch_sites': len(fnsw),
                    'athlib_lines_executed_by_the_calls': len(exec_lines),
